@@ -1,4 +1,139 @@
-import SnowProofs.RealInst
-import SnowModel.FlakeStats
+/-
+  C12 — Reported statistics and counters agree with the trajectories.
+
+  Property theorems only (helper lemmas: Lemmas/FlakeRun.lean, Lemmas/FlakeStats.lean).
+  Models: SnowModel/Flake.lean (time loop), SnowModel/FlakeStats.lean (accessors, counters),
+  instantiated at ℝ.  `runWith inp kCN` is the run for ANY controlled-nucleation index, so every
+  theorem covers `run inp` (= `runWith inp (kCN inp)`) with and without controlled nucleation.
+
+  Per vial `i`:  `sigmaRow`/`tempRow` = its row of `X_sigma`/`X_T` (one entry per step, the
+  state at the START of the step), `finalV` = its entries of `stats` after the last step.
+-/
+import SnowProofs.Lemmas.FlakeStats
+
 namespace Snow.C12
+open Snow Num Snow.Flake Snow.FlakeLemmas Snow.FlakeRun Snow.FlakeStats Snow.FlakeStatsLemmas
+
+/-- Hypotheses under which the statistics of vial `i` are read off its trajectory:
+positive step, non-negative threshold, a positive initial amount of ice for a supercooled
+vial (a condition on the derived constants), and an admissible trajectory (ice fraction never
+negative, a vial that contains ice keeps some) — the last one is monitored on every real run. -/
+structure Hyp (inp : Inputs ℝ) (kCN i : Nat) : Prop where
+  vial : i < inp.nVials
+  dt_pos : 0 < inp.p.dt
+  thr : 0 ≤ inp.p.threshold
+  jump : JumpPos inp.p
+  adm : Adm (vtraj inp kCN i)
+
+variable {inp : Inputs ℝ} {kCN i : Nat}
+
+/-- **ice first appears at the reported nucleation time**: if some stored column of vial `i`
+shows ice, `t_nucleation[i] = t[k₀]` with `k₀` the first column with `σ > 0`. -/
+theorem tnuc_first_ice (h : Hyp inp kCN i) (hice : never 0 (sigmaRow inp kCN i) = false) :
+    (finalV inp kCN i).tNuc = (timeVec (NN inp) inp.p.dt)[crossIdx 0 (sigmaRow inp kCN i)]? ∧
+    (finalV inp kCN i).tNuc = some (timeAt inp.p.dt (crossIdx 0 (sigmaRow inp kCN i))) := by
+  obtain ⟨hk, hpos, hfirst⟩ := row_cross inp kCN i 0 hice
+  have := tnuc_of_first_ice (vtraj_chain inp kCN i h.vial) (fresh_start inp kCN i h.vial) h.adm
+    _ (NN inp) hpos hfirst (le_of_lt hk) (by rw [vtraj_length]; unfold NN; omega)
+  rw [nth_final, Nat.zero_add] at this
+  exact ⟨by rw [timeVec_get _ _ h.dt_pos _ hk]; exact this.2.1, this.2.1⟩
+
+/-- **nucleation times lie on the grid**: `t_nucleation = (k+1)·dt` for an executed step `k < N`. -/
+theorem tnuc_grid (hi : i < inp.nVials) (τ : ℝ) (hτ : (finalV inp kCN i).tNuc = some τ) :
+    ∃ k, k < NN inp ∧ τ = ((k : ℝ) + 1) * inp.p.dt := by
+  rw [← nth_final] at hτ
+  obtain ⟨k', hk', e⟩ := tnuc_on_grid (vtraj_chain inp kCN i hi) (fresh_start inp kCN i hi) (NN inp)
+    (by rw [vtraj_length]; unfold NN; omega) τ hτ
+  refine ⟨k', hk', ?_⟩
+  rw [e]; simp [timeAt]
+
+/-- **the nucleation temperature is supercooled** … -/
+theorem Tnuc_supercooled (hi : i < inp.nVials) (T : ℝ) (hT : (finalV inp kCN i).TNuc = some T) :
+    T < inp.p.c.T_eq_l := by
+  rw [← nth_final] at hT
+  exact Tnuc_lt (vtraj_chain inp kCN i hi) (fresh_start inp kCN i hi) (NN inp)
+    (by rw [vtraj_length]; unfold NN; omega) T hT
+
+/-- … and is **the vial's temperature in the nucleating step**: the liquid (sensible) update
+`T + q/hl·dt` of the temperature stored in the column before the first ice. -/
+theorem Tnuc_step_temperature (h : Hyp inp kCN i) (hice : never 0 (sigmaRow inp kCN i) = false) :
+    0 < crossIdx 0 (sigmaRow inp kCN i) ∧
+    ∃ (q : ℝ) (Tpre : ℝ), (tempRow inp kCN i)[crossIdx 0 (sigmaRow inp kCN i) - 1]? = some Tpre ∧
+      (finalV inp kCN i).TNuc = some (Tpre + q / inp.p.c.hl * inp.p.dt) ∧
+      Tpre + q / inp.p.c.hl * inp.p.dt < inp.p.c.T_eq_l := by
+  obtain ⟨hk, hpos, hfirst⟩ := row_cross inp kCN i 0 hice
+  obtain ⟨h0, _, q, hq, hT⟩ := tnuc_of_first_ice (vtraj_chain inp kCN i h.vial) (fresh_start inp kCN i h.vial)
+    h.adm _ (NN inp) hpos hfirst (le_of_lt hk) (by rw [vtraj_length]; unfold NN; omega)
+  rw [nth_final] at hT
+  refine ⟨h0, q, (nth (vtraj inp kCN i) (crossIdx 0 (sigmaRow inp kCN i) - 1)).T, ?_, ?_, ?_⟩
+  · rw [← tempRow_get inp kCN i _ (by omega)]
+    exact List.getElem?_eq_getElem _
+  · simpa [midT, liquidTemp] using hT
+  · simpa [midT, liquidTemp] using hq
+
+/-- **the solidification time**: if some column of vial `i` is above the threshold, then
+`t_solidification[i] = t[k₁] − t_nucleation[i]` with `k₁` the first such column; if none is,
+there is no solidification time. -/
+theorem tsol_def (h : Hyp inp kCN i) :
+    (never inp.p.threshold (sigmaRow inp kCN i) = false →
+      ∃ τ, (finalV inp kCN i).tNuc = some τ ∧
+        (finalV inp kCN i).tSol
+          = some (timeAt inp.p.dt (crossIdx inp.p.threshold (sigmaRow inp kCN i)) - τ) ∧
+        crossIdx 0 (sigmaRow inp kCN i) ≤ crossIdx inp.p.threshold (sigmaRow inp kCN i) ∧
+        never 0 (sigmaRow inp kCN i) = false) ∧
+    (never inp.p.threshold (sigmaRow inp kCN i) = true → (finalV inp kCN i).tSol = none) := by
+  have hc := vtraj_chain inp kCN i h.vial
+  have h0 := fresh_start inp kCN i h.vial
+  have hlen : (vtraj inp kCN i).length = NN inp + 1 := vtraj_length inp kCN i
+  have hT : ∀ j, j + 1 < (vtraj inp kCN i).length →
+      TSolStep inp.p (0 + j) (nth (vtraj inp kCN i) j) (nth (vtraj inp kCN i) (j + 1)) := by
+    intro j hj
+    rw [Nat.zero_add]
+    exact vtraj_tSolStep inp kCN i j h.vial (by unfold NN at hlen; omega) h.thr
+  constructor
+  · intro hthr
+    obtain ⟨hk1, hgt, hf1⟩ := row_cross inp kCN i inp.p.threshold hthr
+    set k1 := crossIdx inp.p.threshold (sigmaRow inp kCN i) with hk1def
+    have hpos1 : 0 < (nth (vtraj inp kCN i) k1).sigma := lt_of_le_of_lt h.thr hgt
+    have hice : never 0 (sigmaRow inp kCN i) = false := by
+      cases hb : never 0 (sigmaRow inp kCN i)
+      · rfl
+      · exact absurd hpos1 (row_never inp kCN i 0 hb k1 hk1)
+    obtain ⟨hk0, hpos0, hf0⟩ := row_cross inp kCN i 0 hice
+    set k0 := crossIdx 0 (sigmaRow inp kCN i) with hk0def
+    have hle : k0 ≤ k1 := by
+      by_contra hcon
+      exact hf0 k1 (by omega) hpos1
+    have t1 := tnuc_of_first_ice hc h0 h.adm k0 k1 hpos0 hf0 hle (by omega)
+    have tN := tnuc_of_first_ice hc h0 h.adm k0 (NN inp) hpos0 hf0 (by omega) (by omega)
+    have ts := tsol_set h0 hT k1 (NN inp) _ hgt hf1 t1.2.1 hk1 (by omega)
+    rw [nth_final] at tN ts
+    rw [Nat.zero_add] at ts
+    exact ⟨_, tN.2.1, ts, hle, hice⟩
+  · intro hnev
+    have := tsol_none h0 hT (NN inp) (by omega) (fun j hj => row_never inp kCN i _ hnev j hj)
+    rwa [nth_final] at this
+
+/-- **a solidification time is non-negative** -/
+theorem tsol_nonneg (h : Hyp inp kCN i) (d : ℝ) (hd : (finalV inp kCN i).tSol = some d) : 0 ≤ d := by
+  obtain ⟨h1, h2⟩ := tsol_def h
+  cases hb : never inp.p.threshold (sigmaRow inp kCN i)
+  · obtain ⟨τ, hτ, hs, hle, hice⟩ := h1 hb
+    have hτ' := (tnuc_first_ice h hice).2
+    rw [hτ] at hτ'
+    rw [hs] at hd
+    have e1 := Option.some.inj hd
+    have e2 := Option.some.inj hτ'
+    rw [← e1, e2]
+    have := (timeAt_mono inp.p.dt h.dt_pos _ _).mpr hle
+    linarith
+  · rw [h2 hb] at hd; exact absurd hd (by simp)
+
+/-- **a solidification time exists only for nucleated vials** -/
+theorem tsol_only_if_nucleated (hi : i < inp.nVials) (h : (finalV inp kCN i).tSol ≠ none) :
+    (finalV inp kCN i).tNuc ≠ none := by
+  rw [← nth_final] at h ⊢
+  exact tsol_needs_tnuc (vtraj_chain inp kCN i hi) (fresh_start inp kCN i hi) (NN inp)
+    (by rw [vtraj_length]; unfold NN; omega) h
+
 end Snow.C12
